@@ -193,6 +193,22 @@ class _Traceback:
 _orig_process_message = IkeSa.process_message
 _orig_check_in_states = IkeSa._check_in_states
 _orig_from_group = A.crypto.DiffieHellman.from_group
+_orig_process_expire = IkeSa.process_expire
+_orig_process_acquire = IkeSa.process_acquire
+
+
+def _process_expire(self, spi, hard=False):
+    w = CUR['world']
+    if w is not None:
+        w.event_routing.append(('expire', self, bytes(spi), bool(hard), CUR['ep'].name if CUR['ep'] else None))
+    return _orig_process_expire(self, spi, hard)
+
+
+def _process_acquire(self, tsi, tsr, index):
+    w = CUR['world']
+    if w is not None:
+        w.event_routing.append(('acquire', self, index, None, CUR['ep'].name if CUR['ep'] else None))
+    return _orig_process_acquire(self, tsi, tsr, index)
 
 
 def _process_message(self, data):
@@ -240,6 +256,8 @@ def install():
     A.ikesa.DiffieHellman = _RecordingDH
     IkeSa.process_message = _process_message
     IkeSa._check_in_states = _check_in_states
+    IkeSa.process_expire = _process_expire
+    IkeSa.process_acquire = _process_acquire
 
 
 class Endpoint:
@@ -374,6 +392,7 @@ class World:
         self.sent_log = []
         self.next_id = 0
         self.routing = []
+        self.event_routing = []
         self.internal_errors = []
         self.state_errors = []
         self.dh_log = []
